@@ -15,6 +15,8 @@ def showErr : Ens.Err → String
   | .index => "err index"
   | .zerodiv => "err zerodiv"
   | .type => "err type"
+  | .value => "err value"
+  | .runtime => "err runtime"
 
 def parseOptNat : Val → Option (Option Nat)
   | .sym "none" => some none
@@ -29,7 +31,63 @@ def parseMember : Val → Option (Member (List Float) Float)
 def showMember (m : Member (List Float) Float) : String :=
   s!"id={m.id} e={pF m.bestE} x={pFs m.bestX} evals={m.evals} gens={m.gens}"
 
+/-- state of a (nested / member) solver as far as the template model is concerned -/
+structure SolverSt where
+  evals : Nat
+  gens : Nat
+  id : Option Nat
+
+def showSt (s : SolverSt) : String :=
+  let i : Int := match s.id with | some i => (i : Int) | none => -1
+  s!"({s.evals} {s.gens} {i})"
+
+def parsePair : Val → Option (Nat × Nat)
+  | .list [a, b] => do pure (← a.asNat?, ← b.asNat?)
+  | _ => none
+
+/-- `(at n ((evals gens) ...))`: one new ensemble built on the template, with the members' REAL final counters -/
+def parseEns : Val → Option (Nat × Nat × List (Nat × Nat))
+  | .list [a, n, res] => do
+    let l ← res.asList?
+    pure (← a.asNat?, ← n.asNat?, ← l.mapM parsePair)
+  | _ => none
+
+/-- consecutive new ensembles on the template at address `t`; returns the final store and the member addresses -/
+def runEnsembles (t : Nat) : Store SolverSt → List (Nat × Nat × List (Nat × Nat)) → Store SolverSt × List (List Nat)
+  | h, [] => (h, [])
+  | h, (at_, n, res) :: rest =>
+    let ra := res.toArray
+    let r := solveNew (fun (s : SolverSt) i => { s with id := some i })
+      (fun i (s : SolverSt) => match ra[i]? with
+        | some (e, g) => { s with evals := e, gens := g }
+        | none => s) t at_ n h
+    let r2 := runEnsembles t r.1 rest
+    (r2.1, r.2 :: r2.2)
+
 def handle : Handler
+  | .sym "dsamples" :: args => Id.run do
+    -- random_samples / samplepts with a distribution: initial draw (dim x npts) and the recorded redraw calls
+    let some lb := (kw? args "lb").bind Val.asFloats? | return "bad-op"
+    let some ub := (kw? args "ub").bind Val.asFloats? | return "bad-op"
+    let some npts := (kw? args "npts").bind Val.asNat? | return "bad-op"
+    let some clip := (kw? args "clip").bind Val.asBool? | return "bad-op"
+    let some tr := (kw? args "T").bind Val.asBool? | return "bad-op"
+    let some init := (kw? args "init").bind parseFss | return "bad-op"
+    let some calls := (kw? args "calls").bind parseFss | return "bad-op"
+    let ca := (calls.map List.toArray).toArray
+    let draw : Nat → Nat → Float := fun c k => (ca.getD c #[]).getD k 0.0
+    let r := if tr then sampleptsDist draw lb ub npts init 1000 else randomSamplesDist draw lb ub init clip 1000
+    match r with
+    | .error e => return showErr e
+    | .ok (c, pts) => return s!"ok n={pts.length} calls={c} pts={pFss pts}"
+  | .sym "template" :: args => Id.run do
+    let some t0 := (kw? args "t").bind parsePair | return "bad-op"
+    let some ens := (kw? args "ens").bind Val.asList? |>.bind (·.mapM parseEns) | return "bad-op"
+    -- address 0 = the configured nested solver instance handed to SetNestedSolver
+    let h0 : Store SolverSt := ⟨fun _ => ⟨t0.1, t0.2, none⟩, 1⟩
+    let r := runEnsembles 0 h0 ens
+    let states := r.2.map fun ms => pL (ms.map fun a => showSt (r.1.get a))
+    return s!"ok tmpl={showSt (r.1.get 0)} next={r.1.next} members={pL (r.2.map pNs)} states={pL states}"
   | .sym "grid" :: args => Id.run do
     let some q := (kw? args "q").bind parseFss | return "bad-op"
     match gridpts q with
